@@ -237,6 +237,41 @@ def gap_scan_problem(fn):
     return None
 
 
+def projection_problem(fn, prog):
+    """A candidate scan that tests a *projection* of the names in use (`n not in {p.idx for p in parts}`) instead of the names
+    themselves is sound only when the projection is defined for every name in the population.  PackURI.idx is None for a file name
+    that is not letters followed by digits; when the scanned names come from a caller-supplied template (`tmpl % n`) such names
+    are never seen as used and a used name is returned.  Returns a description or None."""
+    if not isinstance(fn, (ast.FunctionDef, ast.AsyncFunctionDef)):
+        return None
+    params = [a.arg for a in fn.args.args]
+    tmpl_params = {dotted(n.left) for n in ast.walk(fn) if isinstance(n, ast.BinOp) and isinstance(n.op, ast.Mod) and dotted(n.left) in params}
+    for n in ast.walk(fn):
+        if not (isinstance(n, ast.Compare) and len(n.ops) == 1 and isinstance(n.ops[0], (ast.In, ast.NotIn)) and isinstance(n.left, ast.Name)):
+            continue
+        coll = n.comparators[0]
+        src = _binding(fn, coll.id) if isinstance(coll, ast.Name) else coll
+        while isinstance(src, ast.Call) and dotted(src.func) in ("set", "frozenset", "list", "tuple", "sorted") and src.args:
+            src = src.args[0]
+        if not isinstance(src, (ast.SetComp, ast.ListComp, ast.GeneratorExp)):
+            continue
+        elt = src.elt
+        if not (isinstance(elt, ast.Attribute) and isinstance(elt.value, (ast.Name, ast.Attribute))):
+            continue
+        uri = prog.modules.get("pptx.opc.packuri")
+        pu = uri.classes.get("PackURI") if uri else None
+        pr = prog.lookup(pu, elt.attr) if pu is not None else None
+        if pr is None or pr.kind not in ("property", "lazyproperty"):
+            continue
+        partial = any(isinstance(r, ast.Return) and (r.value is None or (isinstance(r.value, ast.Constant) and r.value.value is None))
+                      for r in ast.walk(pr.node))
+        if partial and tmpl_params:
+            return ("the scan tests `%s`, a set of PackURI.%s values, but PackURI.%s is None for a file name it does not parse (letters then "
+                    "digits); the names come from the caller's template `%s`, so for a template with other characters no number ever counts "
+                    "as used and the name of an existing part is returned" % (ast.unparse(n)[:50], elt.attr, elt.attr, sorted(tmpl_params)[0]))
+    return None
+
+
 def scan_exhaustion_problem(fn, seen=None):
     """`for n in range(...): if candidate(n) not in P: return` finds a free value only if at least |P|+1 distinct candidates are
     tried (pigeonhole).  Count the candidates (range length plus single candidates tested before the loop) as a polynomial
@@ -565,12 +600,15 @@ def run(ctx):
         exh = next((x for x in (scan_exhaustion_problem(g.node) for g in reach) if x), None)
         gap = next((x for x in (gap_scan_problem(g.node) for g in reach) if x), None)
         stale = [] if q.endswith(".max_shape_id") else _stale_returns(f, prog)
+        proj = next((x for x in (projection_problem(g.node, prog) for g in reach) if x), None)
         if miss or bad:
             ctx.violation("R6.2", key + ":population", "allocator does not draw from the whole population (missing %s%s)" % (
                 miss, (", found narrowing " + str(bad)) if bad else ""), file=f.file, line=f.line)
         elif not idi:
             # how the fresh value is computed is not understood: an analysis gap, not a counter-fact
             ctx.error(key, "no recognised fresh-value idiom in the allocator (max+1, first gap, candidate scan, counter ...)")
+        elif proj:
+            ctx.violation("R6.2", key + ":projection", proj, file=f.file, line=f.line)
         elif exh:
             ctx.violation("R6.2", key + ":exhaustion", exh, file=f.file, line=f.line)
         elif any("gap" in i or "enumerate" in i for i in idi) and gap and gap.startswith("?"):
